@@ -5,6 +5,7 @@
 package media
 
 import (
+	"github.com/cnotch/ipchub/utils/simhook"
 	"fmt"
 	"sort"
 	"sync"
@@ -45,6 +46,7 @@ func Regist(s *Stream) {
 	if s == oldSI { // 如果是同一个源
 		return
 	}
+	simhook.Y("global.regist.betweenLoadAndStore")
 
 	// 设置新流
 	streams.Store(s.path, s)
@@ -66,6 +68,7 @@ func Unregist(s *Stream) {
 	if ok {
 		s2 := si.(*Stream)
 		if s2 == s {
+			simhook.Y("global.unregist.betweenLoadAndDelete")
 			streams.Delete(s.path)
 		}
 	}
@@ -100,6 +103,7 @@ func GetOrCreate(path string) *Stream {
 	}
 
 	// 检查路由
+	simhook.Y("global.getOrCreate.afterMiss")
 	path = utils.CanonicalPath(path)
 	r := route.Match(path)
 	if r != nil {
@@ -107,6 +111,7 @@ func GetOrCreate(path string) *Stream {
 		var err error
 		for _, psf := range psFactories {
 			if psf.Can(r.URL) {
+				simhook.Y("global.getOrCreate.beforeCreate")
 				s, err = psf.Create(r.Pattern, r.URL)
 				if err == nil {
 					if !r.KeepAlive {
